@@ -62,7 +62,8 @@ def gen_concurrent_case(rng: random.Random, tier: str, backends=('dict',),
                         weights=None, len_range=(10, 40),
                         hold_p: float = 0.08,
                         examine_p: float = 0.2,
-                        fault_p: float = 0.08) -> dict:
+                        fault_p: float = 0.08,
+                        away_p: float = 0.04) -> dict:
     """2-4 sessions on one mailbox, several acting per step."""
     n = rng.randint(min_sessions, max_sessions)
     tokens = Tokens()
@@ -91,11 +92,31 @@ def gen_concurrent_case(rng: random.Random, tier: str, backends=('dict',),
     idling: set[int] = set()
     holding: set[int] = set()
     dead: set[int] = set()
+    away: set[int] = set()
     for _ in range(rng.randint(*len_range)):
         acts = []
         k = rng.choice([1, 2, 2, 3, n]) if n > 1 else 1
         for sess in rng.sample(range(n), min(k, n)):
             if sess in dead:
+                continue
+            if sess in away:
+                # not selected: come back, or deliver from outside
+                if rng.random() < 0.4:
+                    acts.append({'sess': sess, 'mailbox': 'INBOX',
+                                 'kind': 'examine' if sess in examine
+                                 or rng.random() < 0.15 else 'select'})
+                    away.discard(sess)
+                elif rng.random() < 0.6:
+                    act = append_action(rng, tokens, sess, 'INBOX')
+                    hi += len(act['msgs'])
+                    maxn += len(act['msgs'])
+                    acts.append(act)
+                continue
+            if sess not in idling and sess not in holding \
+                    and rng.random() < away_p:
+                # leave the mailbox for a while (CLOSE expunges)
+                acts.append({'sess': sess, 'kind': 'close'})
+                away.add(sess)
                 continue
             if sess in idling:
                 if rng.random() < 0.5:
@@ -152,6 +173,7 @@ def gen_concurrent_case(rng: random.Random, tier: str, backends=('dict',),
                                'sess': v, 'at': rng.randint(0, 40)}]
             idling.discard(v)
             holding.discard(v)
+            away.discard(v)
             dead.add(v)
         if acts:
             steps.append(step)
@@ -165,7 +187,12 @@ def gen_concurrent_case(rng: random.Random, tier: str, backends=('dict',),
                          'mailbox': 'INBOX'}):
                 steps.append({'actions': [dict(act, sess=v)],
                               'sched_seed': None})
-    # wind down: release holds, end idles, NOOP everywhere
+    # wind down: everybody back in, release holds, end idles, NOOP everywhere
+    if away:
+        steps.append({'actions': [{'sess': i, 'mailbox': 'INBOX',
+                                   'kind': 'examine' if i in examine
+                                   else 'select'} for i in sorted(away)],
+                      'sched_seed': None})
     steps.append({'actions': [{'sess': i, 'kind': 'unhold'}
                               for i in sorted(holding)] +
                   [{'sess': i, 'kind': 'done'} for i in sorted(idling)],
